@@ -7,7 +7,7 @@ From Flocq Require Import Core BinarySingleNaN.
 Import ListNotations.
 Require Import GV.Gen.Consts GV.Model.Outcome GV.Model.F32 GV.Model.Kinematics GV.Model.Packets GV.Spec.C19_spec
   GV.Proofs.F32_lemmas GV.Proofs.C19_rotation GV.Proofs.C19_triangle GV.Proofs.C19_profile
-  GV.Proofs.C19_actuator GV.Proofs.C19_deadband GV.Proofs.C19_chain GV.Proofs.C13_roundtrip GV.Proofs.C19_cosines_f32 GV.Proofs.C19_cosines_exact.
+  GV.Proofs.C19_actuator GV.Proofs.C19_deadband GV.Proofs.C19_chain GV.Proofs.C13_roundtrip GV.Proofs.C19_cosines_f32 GV.Proofs.C19_cosines_exact GV.Proofs.C19_saturation.
 
 (* ---- shortest_rotation: for EVERY finite f32 d >= -2*PI_f ---- *)
 Theorem C19_shortest_rotation : forall d : f32,
@@ -87,6 +87,18 @@ Theorem C19_linear_update_sign_and_range : forall p, lin_ok p -> forall e : f32,
   (Bsign e = false -> (0 <= lu_real p e <= 32768)%R) /\ (Bsign e = true -> (-32768 <= lu_real p e <= 0)%R).
 Proof. exact lu_sign_range. Qed.
 Print Assumptions C19_linear_update_sign_and_range.
+(* ... and saturates AT the limits: once the proportional part reaches the room the offset leaves, the value before the sign
+   flip is -32768 (negative errors) / 32767 (positive errors) up to the rounding of the two additions *)
+Theorem C19_linear_update_saturates_low : forall p, lin_ok p -> forall e : f32, is_finite e = true -> Bsign e = true ->
+  (satR (rnd (R32 e * R32 (kp p))) <= LO p)%R ->
+  (-32768 <= lu_real p e <= -32768 + bpow2 (-9))%R.
+Proof. exact lu_saturates_low. Qed.
+Print Assumptions C19_linear_update_saturates_low.
+Theorem C19_linear_update_saturates_high : forall p, lin_ok p -> forall e : f32, is_finite e = true -> Bsign e = false ->
+  (0 < R32 e)%R -> (HI p <= satR (rnd (R32 e * R32 (kp p))))%R ->
+  (32767 - bpow2 (-9) <= lu_real p e <= 32767 + bpow2 (-9))%R.
+Proof. exact lu_saturates_high. Qed.
+Print Assumptions C19_linear_update_saturates_high.
 
 (* ---- ActuatorState::update: the i16 the director sends saturates (never wraps), opposes the sign
    of the error unless inverted, is monotone; along ANY sequence of updates with finite errors:
